@@ -169,3 +169,86 @@ func inlinePolicyCase(r *sim.R, prop string) {
 			reflect.TypeOf(target).Elem(), name, gc, other, wc)
 	}
 }
+
+// InlBase is the struct an inline pointer field points to.
+type InlBase struct {
+	A int    `config:"a"`
+	B string `config:"b"`
+}
+
+type inlPtrStruct struct {
+	Base *InlBase `config:",inline"`
+	X    int      `config:"x"`
+}
+
+type inlPtrMap struct {
+	M *map[string]interface{} `config:",inline"`
+	X int                     `config:"x"`
+}
+
+// inlinePtrCase: an inline field that is a pointer, nil or pre-filled. A nil pointer is allocated
+// like that of any other field; the settings of the enclosing object are the settings of what it
+// points to.
+func inlinePtrCase(r *sim.R, prop string) {
+	t := r.T
+	e := &E{R: r, Prop: prop}
+	opts := []ucfg.Option{ucfg.PathSep(".")}
+	a, x := 10+t.Choose(80, "a"), 10+t.Choose(80, "x")
+	in := map[string]interface{}{"x": uint64(x)}
+	hasA := t.Chance(3, 4, "mention-a")
+	if hasA {
+		in["a"] = uint64(a)
+	}
+	cfg, err := ucfg.NewFrom(in, opts...)
+	if err != nil {
+		panic("harness: inline pointer config: " + err.Error())
+	}
+	pre := t.Bool("pre-filled")
+	r.Probe("unpack: inline field that is a pointer (nil or pre-filled)")
+	if t.Bool("inline-pointer-to-map") {
+		var target inlPtrMap
+		if pre {
+			m := map[string]interface{}{"z": "old"}
+			target.M = &m
+		}
+		r.Tracef("config %v into inlPtrMap (inline *map, pre-filled=%v)", in, pre)
+		r.MustComplete("Unpack", func() { err = cfg.Unpack(&target, opts...) })
+		r.StateOps++
+		if err != nil {
+			e.fail("success", "Unpack", nil, "Unpack into a struct with an inline *map field (pre-filled=%v) failed: %v", pre, err)
+			return
+		}
+		want := map[string]interface{}{"x": uint64(x)}
+		if hasA {
+			want["a"] = uint64(a)
+		}
+		if pre {
+			want["z"] = "old"
+		}
+		if target.M == nil || model.CanonValue(*target.M) != model.CanonValue(want) || target.X != x {
+			e.fail("result", "Unpack", nil, "Unpack into a struct with an inline *map field: got %v / x=%d, want %v / x=%d", target.M, target.X, want, x)
+		}
+		return
+	}
+	var target inlPtrStruct
+	if pre {
+		target.Base = &InlBase{A: 5, B: "old"}
+	}
+	r.Tracef("config %v into inlPtrStruct (inline *struct, pre-filled=%v)", in, pre)
+	r.MustComplete("Unpack", func() { err = cfg.Unpack(&target, opts...) })
+	r.StateOps++
+	if err != nil {
+		e.fail("success", "Unpack", nil, "Unpack into a struct with an inline *struct field (pre-filled=%v) failed: %v", pre, err)
+		return
+	}
+	want := InlBase{}
+	if pre {
+		want = InlBase{A: 5, B: "old"}
+	}
+	if hasA {
+		want.A = a
+	}
+	if target.Base == nil || *target.Base != want || target.X != x {
+		e.fail("result", "Unpack", nil, "Unpack into a struct with an inline *struct field: got %+v / x=%d, want %+v / x=%d", target.Base, target.X, want, x)
+	}
+}
